@@ -539,10 +539,11 @@ def run_search(inst, which, variant=None):
     from matched_markets.methodology import tbrmatchedmarkets, _verif_trace
     if inst['id'] % 7 == 3 and not inst.get('decoy'):
       # a RECONFIGURED searcher: it was built and used with other settings of the fields that are read at call time
-      # (result cap, tolerances, size / share / budget ranges, n_geos_max), then the caller assigned the intended
+      # (result cap, tolerances, size / share / budget ranges, n_geos_max, minimum correlation), then the caller assigned the intended
       # values to the fields of its parameter object.  What was true of the earlier settings must be forgotten.
       par0 = copy.copy(par)
       par0.n_designs = par.n_designs + 2
+      par0.min_corr = 0.5 if par.min_corr >= 0.8 else 0.99
       par0.volume_ratio_tolerance = None if par.volume_ratio_tolerance is not None else 0.5
       par0.geo_ratio_tolerance = None if par.geo_ratio_tolerance is not None else 1.0
       for f in ('treatment_geos_range', 'control_geos_range', 'treatment_share_range', 'budget_range', 'n_geos_max'):
@@ -558,6 +559,11 @@ def run_search(inst, which, variant=None):
         pass
       for f in RECONFIGURED:
         setattr(mmo.parameters, f, getattr(par, f))
+      try:     # ... and the caller has set another geo index on the data object in between (fewer geos, other order)
+        if data.geo_index is not None and len(data.geo_index) > 1:
+          data.geo_index = list(reversed(data.geo_index))[:-1]
+      except Exception:  # pylint: disable=broad-except
+        pass
       box['par'] = mmo.parameters
     else:
       mmo = tbrmatchedmarkets.TBRMatchedMarkets(data, par)
@@ -602,12 +608,17 @@ def run_search(inst, which, variant=None):
       perturb_caller_objects(box['par'], keep['df'])
   out = _outcome(inst, lambda: box['ids'], which, scale, thunk, after)
   if not variant.get('no_events'):
-    inst['events_' + which] = project_events(events, box.get('ids'))
+    try:
+      inst['events_' + which] = project_events(events, box.get('ids'))
+    except Exception as e:  # pylint: disable=broad-except
+      # hook events that cannot be mapped back to geos (indices outside the index in force): no step-level trace; the
+      # outcome of the search itself is judged as usual
+      inst['events_' + which] = {'started': False, 'events': [], 'unprojectable': '%s: %s' % (type(e).__name__, e)}
   return out
 
 
 RECONFIGURED = ('n_designs', 'volume_ratio_tolerance', 'geo_ratio_tolerance', 'treatment_geos_range', 'control_geos_range',
-                'treatment_share_range', 'budget_range', 'n_geos_max')
+                'treatment_share_range', 'budget_range', 'n_geos_max', 'min_corr')
 _DECOY = {}
 
 
